@@ -139,7 +139,7 @@ fn parse_position(line: &str) -> Result<(Pos, usize), String> {
     Ok((pos, n))
 }
 
-fn classify_panic(a: &mut Analysis, msg: &str, loc: &str, at: u32, on_main: bool) {
+fn classify_panic(a: &mut Analysis, msg: &str, loc: &str, at: u32, on_search: bool) {
     let unchecked = msg.contains("unsafe precondition")
         || loc.contains("arrayvec")
         || loc.contains("chess/position.rs")
@@ -150,13 +150,13 @@ fn classify_panic(a: &mut Analysis, msg: &str, loc: &str, at: u32, on_main: bool
     if unchecked {
         a.v("C15", "R1-unchecked-precondition", at, d.clone());
     }
-    if loc.contains("search.rs") || msg.contains("overflow") || msg.contains("index out of bounds") {
+    // C08: a search must not crash, wherever in the code the crash surfaces
+    if on_search || loc.contains("search.rs") || msg.contains("overflow") || msg.contains("index out of bounds") {
         a.v("C08", "R2-search-crash", at, d.clone());
     }
     if loc.contains("uci.rs") && (msg.contains("overflow") || msg.contains("subtract")) {
         a.v("C13", "R4-panic-in-go", at, d.clone());
     }
-    let _ = on_main;
     a.v("C14", "R1-panic", at, d);
 }
 
@@ -588,7 +588,7 @@ pub fn analyse_session(case: &Case, out: &Outcome) -> Analysis {
                 }
             }
             EvK::Panic { msg, loc } => {
-                classify_panic(&mut a, msg, loc, cmd_id, e.th == 0);
+                classify_panic(&mut a, msg, loc, cmd_id, e.th != 0 && thread_go.contains_key(&e.th) && role(e.th) != Role::Timer);
             }
             EvK::Blocked { why } => {
                 if why == "stdin" {
@@ -1028,7 +1028,7 @@ pub fn analyse_direct(case: &Case, out: &Outcome) -> Analysis {
                     saw_false_poll = Some(*poll);
                 }
             }
-            EvK::Panic { msg, loc } => classify_panic(&mut a, msg, loc, k.unwrap_or(0) as u32, true),
+            EvK::Panic { msg, loc } => classify_panic(&mut a, msg, loc, k.unwrap_or(0) as u32, k.is_some()),
             _ => {}
         }
     }
